@@ -3,6 +3,7 @@ package loadbalancer
 import (
 	"bufio"
 	"context"
+	"errors"
 	"fmt"
 	"net"
 	"net/http"
@@ -19,6 +20,10 @@ import (
 	"github.com/0xReLogic/Helios/internal/ratelimiter"
 	"github.com/0xReLogic/Helios/internal/utils"
 )
+
+// errBackendFailure reports a failed proxied request (5xx response or unreachable backend)
+// to the circuit breaker. The response has already been written and recorded by then.
+var errBackendFailure = errors.New("backend request failed")
 
 // Strategy defines the interface for load balancing strategies
 type Strategy interface {
@@ -620,6 +625,10 @@ func (lb *LoadBalancer) ServeHTTP(w http.ResponseWriter, r *http.Request) {
 		err := lb.circuitBreaker.Execute(func() error {
 			return lb.handleRequest(w, r, startTime)
 		})
+		if err == errBackendFailure {
+			// Counted as a breaker failure; proxyRequest already answered and recorded it
+			return
+		}
 		if err != nil {
 			failureCount, successCount, requestCount := lb.circuitBreaker.Counts()
 			logger.Error().
@@ -642,7 +651,7 @@ func (lb *LoadBalancer) ServeHTTP(w http.ResponseWriter, r *http.Request) {
 		}
 	} else {
 		// Execute without circuit breaker
-		if err := lb.handleRequest(w, r, startTime); err != nil {
+		if err := lb.handleRequest(w, r, startTime); err != nil && err != errBackendFailure {
 			logger.Error().Err(err).Msg("request handling failed")
 		}
 	}
@@ -698,6 +707,9 @@ func (lb *LoadBalancer) proxyRequest(backend *Backend, w http.ResponseWriter, r 
 	// Record metrics and handle passive health checks
 	lb.recordRequestMetrics(backend, rw.statusCode, startTime, r)
 
+	if rw.statusCode >= http.StatusInternalServerError {
+		return errBackendFailure
+	}
 	return nil
 }
 
